@@ -45,7 +45,7 @@ func DecodeStssSR(hdr BoxHeader, startPos uint64, sr bits.SliceReader) (Box, err
 	for i := 0; i < int(entryCount); i++ {
 		b.SampleNumber[i] = sr.ReadUint32()
 	}
-	return &b, nil
+	return &b, sr.AccError()
 }
 
 // EntryCount - number of sync samples
